@@ -808,6 +808,246 @@ fn scenario_kill_then_drop(seed: u64) {
 }
 
 // ------------------------------------------------------------------------------------------------
+// C14 / C15 under real parallelism (feature deadlock-detection): the wait-for graph is shared by every
+// thread. Ring: every node's handler asks the next node, several clients enter the ring at different
+// nodes at once - some participant must report the cycle and nobody may be left waiting (Miri's deadlock
+// verdict is the hang oracle). Chain: the same traffic over an acyclic topology must never be reported.
+struct Node {
+    next: Option<ActorRef<Node>>,
+}
+struct SetNext(Option<ActorRef<Node>>);
+struct Hop(u64);
+
+impl Actor for Node {
+    type Args = ();
+    type Error = String;
+    async fn on_start(_a: (), _r: &ActorRef<Self>) -> Result<Self, String> {
+        Ok(Node { next: None })
+    }
+}
+
+#[message_handlers]
+impl Node {
+    #[handler]
+    async fn set_next(&mut self, m: SetNext, _r: &ActorRef<Self>) {
+        self.next = m.0;
+    }
+    #[handler]
+    async fn hop(&mut self, h: Hop, _r: &ActorRef<Self>) -> u64 {
+        match (&self.next, h.0) {
+            (Some(n), d) if d > 0 => match n.ask(Hop(d - 1)).await {
+                Ok(v) => v + 1,
+                Err(_) => 1000,
+            },
+            _ => 0,
+        }
+    }
+}
+
+fn scenario_dd_mt(seed: u64) {
+    let mut rng = Rng(seed);
+    let rt = rt();
+    let n = 2 + rng.below(2) as usize;
+    // 0: one request goes all the way round a ring (the cycle closes in every schedule); 1: acyclic chain;
+    // 2: ring, one client per node, every handler asks its successor once, all at the same time (the cycle closes
+    // only if the asks overlap: whether or not it does, nobody may be left waiting)
+    let variant = rng.below(4).min(2);
+    let ring = variant != 1;
+    let mut refs = Vec::new();
+    let mut joins = Vec::new();
+    {
+        let _e = rt.enter();
+        for _ in 0..n {
+            let (r, jh) = spawn::<Node>(());
+            refs.push(r);
+            joins.push(jh);
+        }
+    }
+    for i in 0..n {
+        let next = if i + 1 < n { Some(refs[i + 1].clone()) } else if ring { Some(refs[0].clone()) } else { None };
+        refs[i].blocking_tell(SetNext(next), None).unwrap();
+    }
+    let clients = if variant == 2 { n } else { 1 + rng.below(2) as usize };
+    let offset = rng.below(n as u64) as usize;
+    let mut tasks = Vec::new();
+    for c in 0..clients {
+        let entry = refs[(c + offset) % n].clone();
+        let depth = match variant {
+            0 => n as u64 + rng.below(2),
+            1 => n as u64,
+            _ => 1,
+        };
+        let spins = if variant == 2 { 0 } else { rng.below(3) };
+        tasks.push(rt.spawn(async move {
+            for _ in 0..spins {
+                tokio::task::yield_now().await;
+            }
+            match entry.ask(Hop(depth)).await {
+                Ok(v) => format!("ok{v}"),
+                Err(e) => err_kind(&e).to_string(),
+            }
+        }));
+    }
+    let mut outcomes = Vec::new();
+    for t in tasks {
+        // a request that never completes leaves every thread blocked: Miri reports the deadlock
+        outcomes.push(rt.block_on(t).unwrap());
+    }
+    // break the reference ring so that the survivors end
+    for r in &refs {
+        let _ = r.blocking_tell(SetNext(None), None);
+    }
+    drop(refs);
+    let mut panicked = 0;
+    for jh in joins {
+        if rt.block_on(jh).is_err() {
+            panicked += 1;
+        }
+    }
+    ev(format!("dd-mt variant={variant} n={n} clients={clients} outcomes={outcomes:?} panicked={panicked}"));
+    let clean = |o: &String| o.starts_with("ok") && o[2..].parse::<u64>().map(|v| v < 1000).unwrap_or(false);
+    match variant {
+        0 => {
+            // somebody must have reported the cycle, and no request can have gone round untouched
+            if panicked == 0 || outcomes.iter().all(clean) {
+                violation("C14", "cycle-not-reported", format!("a request went round the ring of {n} actors without a deadlock report: outcomes {outcomes:?}, {panicked} actors panicked"));
+            }
+        }
+        1 => {
+            if panicked > 0 || !outcomes.iter().all(clean) {
+                violation("C15", "false-deadlock", format!("acyclic chain of {n} actors: outcomes {outcomes:?}, {panicked} actors panicked"));
+            }
+        }
+        _ => {
+            // without a report every request completed normally
+            if panicked == 0 && !outcomes.iter().all(clean) {
+                violation("C15", "error-without-report", format!("ring of {n} actors, nobody panicked, yet outcomes {outcomes:?}"));
+            }
+        }
+    }
+}
+
+// ------------------------------------------------------------------------------------------------
+// the end of an actor as seen from other threads (C11 liveness / upgrade, C03 / C17 sends on a dead actor,
+// C13 counter): while the actor ends (kill / stop / handler panic / last reference dropped) one thread polls
+// is_alive(), one upgrades a weak reference and uses what it gets; once the JoinHandle has resolved is_alive()
+// must be false and every kind of send must fail with Send and count one dead letter each
+fn scenario_end_vs_observers(seed: u64) {
+    let mut rng = Rng(seed);
+    let rt = rt();
+    let cap = [1usize, 4][rng.below(2) as usize];
+    let (r, jh, _journal, _g) = new_actor(&rt, cap, false);
+    let id = r.identity();
+    let ending = rng.below(4); // 0 kill, 1 stop, 2 handler panic, 3 last reference dropped
+    let weak = ActorRef::downgrade(&r);
+    let probe = if ending == 3 { None } else { Some(r.clone()) };
+    if !r.is_alive() {
+        violation("C11", "not-alive-after-spawn", "is_alive() false right after spawn".into());
+    }
+    // observer 1: is_alive never goes back to true
+    let o1 = {
+        let w = weak.clone();
+        let probe = probe.clone();
+        let spins = 2 + rng.below(4);
+        std::thread::spawn(move || {
+            let mut seen_dead = false;
+            for _ in 0..spins {
+                let alive = match &probe {
+                    Some(p) => p.is_alive(),
+                    None => w.upgrade().map(|r| r.is_alive()).unwrap_or(false),
+                };
+                if alive && seen_dead {
+                    violation("C11", "alive-again", "is_alive() returned true after it had returned false".into());
+                }
+                seen_dead |= !alive;
+                std::thread::yield_now();
+            }
+        })
+    };
+    // observer 2: whatever upgrade() returns is a full reference to the same actor
+    let o2 = {
+        let w = weak.clone();
+        let spins = rng.below(3);
+        std::thread::spawn(move || {
+            for _ in 0..spins {
+                std::thread::yield_now();
+            }
+            if let Some(r2) = w.upgrade() {
+                if r2.identity() != id {
+                    violation("C11", "identity-differs", "upgraded reference reports another identity".into());
+                }
+                // behaves like any strong reference: a send either succeeds or fails with Send
+                match r2.blocking_tell(Job(7, false), None) {
+                    Ok(()) => {}
+                    Err(e) => {
+                        if err_kind(&e) != "Send" {
+                            violation("C11", "upgraded-ref-odd-error", format!("send through an upgraded reference failed with {}", err_kind(&e)));
+                        }
+                    }
+                }
+            }
+        })
+    };
+    for _ in 0..rng.below(3) {
+        std::thread::yield_now();
+    }
+    match ending {
+        0 => r.kill().unwrap(),
+        1 => rt.block_on(r.stop()).unwrap(),
+        2 => {
+            let _ = r.blocking_tell(Poison(1), None);
+        }
+        _ => {}
+    }
+    drop(r);
+    o1.join().unwrap();
+    o2.join().unwrap();
+    let out = rt.block_on(jh);
+    let ended_by_panic = out.is_err();
+    if ending != 2 && ended_by_panic {
+        violation("C07", "unexpected-panic", "actor task failed".into());
+    }
+    if let Some(p) = &probe {
+        if p.is_alive() {
+            violation("C11", "is_alive-true-after-end", "is_alive() returned true after the JoinHandle had resolved".into());
+        }
+        let before = rsactor::dead_letter_count();
+        let mut fails = 0u64;
+        let results: Vec<(&str, Result<(), Error>)> = vec![
+            ("tell", rt.block_on(p.tell(Job(900, false)))),
+            ("ask", rt.block_on(p.ask(Job(901, false))).map(|_| ())),
+            ("tell_with_timeout", rt.block_on(p.tell_with_timeout(Job(902, false), Duration::from_millis(50)))),
+            ("blocking_tell", p.blocking_tell(Job(903, false), None)),
+            ("blocking_ask", p.blocking_ask(Job(904, false), None).map(|_| ())),
+        ];
+        for (name, res) in &results {
+            match res {
+                Ok(()) => violation("C11", "send-ok-after-end", format!("{name} succeeded after the JoinHandle had resolved")),
+                Err(e) => {
+                    fails += 1;
+                    if err_kind(e) != "Send" {
+                        violation(if name.starts_with("blocking") { "C17" } else { "C03" }, "wrong-error-after-end", format!("{name} on an ended actor failed with {} instead of Send", err_kind(e)));
+                    }
+                }
+            }
+        }
+        let delta = rsactor::dead_letter_count() - before;
+        if delta != fails {
+            violation("C13", "counter-delta", format!("{fails} failed sends on an ended actor recorded {delta} dead letters"));
+        }
+        ev(format!("end-vs-observers ending={ending} cap={cap} fails={fails} dl={delta}"));
+    } else {
+        // nobody sent anything (observer 2's tell aside, which completed before its thread was joined): no
+        // reference can be left
+        let still = weak.upgrade().is_some();
+        ev(format!("end-vs-observers ending={ending} cap={cap} upgrade_after_end={still}"));
+        if still {
+            violation("C11", "upgrade-some-after-death", "upgrade() returned Some after the actor had ended and every strong reference was gone".into());
+        }
+    }
+}
+
+// ------------------------------------------------------------------------------------------------
 // the same race seen from threads: blocking_ask(None) callers racing the actor's end. "Same error rules
 // as ask" (C17) includes "never hangs on a dead actor": every call must return; Miri's deadlock verdict is
 // the hang oracle
@@ -895,6 +1135,8 @@ fn main() {
         "async_mt" => scenario_async_mt(seed),
         "ask_vs_end" => scenario_ask_vs_end(seed),
         "kill_then_drop" => scenario_kill_then_drop(seed),
+        "end_vs_observers" => scenario_end_vs_observers(seed),
+        "dd_mt" => scenario_dd_mt(seed),
         "blocking_ask_vs_end" => scenario_blocking_ask_vs_end(seed),
         "deadletters" => scenario_deadletters(seed),
         "selftest_hang" => scenario_selftest_hang(seed),
